@@ -34,6 +34,12 @@ BASE = [(0, 5), (1, 5), (0, 5), (1, 1), (1, 10), (2, 5), (0, 7), (2, 5), (1, 5),
 MIXED_T = [0, 1.0, 0.0, 1, 1.0, 2, 0, 2.0, 1, 0.0]
 
 
+# times a tolerance-based comparison would wrongly merge; priorities run
+# opposite to the time order
+NEAR = [(0.3, 1), (0.1 + 0.2, 9), (1.0, 1), (1.0 + 6e-13, 5), (1.0 + 1.2e-12, 9),
+        (0.3, 5), (1.0, 5), (1.0 - 1e-16, 1), (0.1 + 0.2, 1), (2.0, 5)]
+
+
 class _T:
     def h(self):
         pass
@@ -52,9 +58,18 @@ def make_pool(kind, K, order, rot):
         idx.reverse()
     elif order == "interleaved":
         idx = idx[1::2] + idx[0::2]
+    near = NEAR[rot % len(NEAR):] + NEAR[:rot % len(NEAR)]
     for i in idx:
         t, p = spec[i]
-        tv = mixed[i] if kind == "mixed" else _mk_time(kind, t)
+        if kind == "mixed":
+            tv = mixed[i]
+        elif kind == "nearfloat":
+            tv, p = near[i]
+        elif kind == "nearduration":
+            tv, p = near[i]
+            tv = _mk_time("duration", tv)
+        else:
+            tv = _mk_time(kind, t)
         evs[i] = SimEvent(tv, tgt, "h", p)
     return evs
 
@@ -321,7 +336,8 @@ def sig_of(kind, bad):
 def run(ctx):
     quick = ctx.tier == "quick"
     K = 7 if quick else 8
-    kinds = ["int", "float", "mixed", "duration"]
+    kinds = ["int", "float", "mixed", "duration", "nearfloat",
+             "nearduration"]
     orders = ["index", "reversed"] if quick else ["index", "reversed",
                                                   "interleaved"]
     rots = [0, (ctx.seed % 9) + 1] if ctx.seed else [0]
